@@ -1031,3 +1031,6 @@ func processCPU() time.Duration {
 	}
 	return time.Duration(ru.Utime.Nano() + ru.Stime.Nano())
 }
+
+// ProcessCPU is the CPU time (user + system) this process has consumed so far.
+func ProcessCPU() time.Duration { return processCPU() }
